@@ -10,6 +10,7 @@ from trie.exceptions import (
 )
 from trie.fog import HexaryTrieFog, TrieFrontierCache
 
+from .c11 import _prefixes as fog_prefixes
 from ..hexcommon import item_lists, literal_keys, resolve_val, valspecs
 from ..util import Info, Raised, as_nibbles, bytes_of_nibbles, expect, expect_eq, impl, nibbles_of
 
@@ -138,7 +139,7 @@ def run_case(case):
     mutated_since_cache = False
 
     def unexplored():
-        return sorted(_tt(p) for p in fog._unexplored_prefixes)
+        return sorted(fog_prefixes(fog))
 
     def touch(k):
         """Book-keeping for a key whose value changed / disappeared."""
